@@ -13,4 +13,6 @@ def check(run, replay=None):
                 "L2: compiled contracts with echo handlers, sv::dispatch_reply / the reply entry point driven with every id (incl. unknown), "
                 "Ok/Err, random gas/events/message responses, data absent / good / malformed at envelope and JSON level, payload good / "
                 "malformed; non-trivial = distinct (program, reply)")
-    return replyprops.check(run, "C07", "Props/C07", THEOREMS, replay)
+    return replyprops.check(run, "C07", "Props/C07", THEOREMS, replay,
+                            translated=("Props/C07T", ["c07_translated_declared_handlers_run", "c07_translated_pass_through",
+                                                       "c07_translated_always_handler"]))
